@@ -379,3 +379,78 @@ Definition mk_tcp (sport dport seq ack : Z) (off flags : Z) (rest : bytes) : byt
   [Z.to_N (off * 16); Z.to_N flags; 255; 255; 0; 0; 0; 0]%N ++ rest.
 
 Definition LOCALHOST := 2130706433.   (* 127.0.0.1 *)
+
+(* ---------- direct operation histories on the state table (part "table"):
+   StateTable.Add / Get / Remove and the State.State mutations of handleTCP ---------- *)
+Record espec := mkES {
+  es_sip : Z; es_sport : Z; es_dip : Z; es_dport : Z; es_state : Z;
+  es_expired : bool      (* last activity more than 30 s ago (zero time.Time) *)
+}.
+Definition EXPIRED_T := -1000000000000.
+Definition tcb_of_spec (e : espec) (now : Z) : tcb :=
+  mkTcb (es_sip e) (es_sport e) (es_dip e) (es_dport e) (es_state e)
+        (if es_expired e then EXPIRED_T else now).
+Definition spec_shift (e : espec) (i : Z) : espec :=
+  mkES (es_sip e) ((es_sport e + i) mod 65536) (es_dip e) (es_dport e) (es_state e) (es_expired e).
+
+Inductive top :=
+| OAdd (e : espec)                   (* Add(state): [1; slot] or [0; -1] *)
+| OFill (n : nat) (e : espec)        (* n Adds, the i-th with source port es_sport + i: [successes; first slot; last slot] *)
+| OGet (sip dip sport dport : Z)     (* Get: [slot] or [-1] *)
+| ORemove (slot : nat)               (* Remove(the state in that slot): [1] or [0] when the slot is nil *)
+| OSetState (slot : nat) (st : Z)    (* state.State = st on the state in that slot: [1] or [0] *)
+| OCount.                            (* [occupied slots] *)
+
+Definition slot_of (t : table) (i : nat) : option tcb :=
+  match nth_error t i with Some (Some k) => Some k | _ => None end.
+
+Definition occupied_slots (t : table) : Z :=
+  zlen (filter (fun s => match s with Some _ => true | None => false end) t).
+
+(* the n Adds of OFill one after the other: (successes, first slot, last slot, table) *)
+Fixpoint fill_iter (cap : Z) (t : table) (now : Z) (e : espec) (i : Z) (n : nat)
+                   (ok first last : Z) : Z * Z * Z * table :=
+  match n with
+  | O => (ok, first, last, t)
+  | S n' =>
+      match table_add cap t now (tcb_of_spec (spec_shift e i) now) with
+      | Some (s, t') =>
+          fill_iter cap t' now e (i + 1) n' (ok + 1) (if first <? 0 then Z.of_nat s else first) (Z.of_nat s)
+      | None => fill_iter cap t now e (i + 1) n' ok first last
+      end
+  end.
+
+Definition top_step (cap : Z) (t : table) (now : Z) (o : top) : list Z * table :=
+  match o with
+  | OAdd e =>
+      match table_add cap t now (tcb_of_spec e now) with
+      | Some (s, t') => ([1; Z.of_nat s], t')
+      | None => ([0; -1], t)
+      end
+  | OFill n e =>
+      let '(ok, first, last, t') := fill_iter cap t now e 0 n 0 (-1) (-1) in ([ok; first; last], t')
+  | OGet sip dip sport dport =>
+      match table_get t O sip dip sport dport with
+      | Some (s, _) => ([Z.of_nat s], t)
+      | None => ([-1], t)
+      end
+  | ORemove s =>
+      match slot_of t s with
+      | Some _ => ([1], set_nth t s None)
+      | None => ([0], t)
+      end
+  | OSetState s st =>
+      match slot_of t s with
+      | Some k => ([1], set_nth t s (Some (mkTcb (k_sip k) (k_sport k) (k_dip k) (k_dport k) st (k_t k))))
+      | None => ([0], t)
+      end
+  | OCount => ([occupied_slots t], t)
+  end.
+
+Fixpoint top_run (cap : Z) (t : table) (ops : list (Z * top)) : list (list Z) * table :=
+  match ops with
+  | [] => ([], t)
+  | (now, o) :: r =>
+      let '(ob, t1) := top_step cap t now o in
+      let '(obs, t2) := top_run cap t1 r in (ob :: obs, t2)
+  end.
